@@ -38,16 +38,17 @@ type Case struct {
 
 // Outcome of executing a case.
 type Outcome struct {
-	Violations []Violation
-	Faults     map[string]int
-	Probes     map[string]int
-	Evals      map[string]int
-	States     []string
-	LogHash    string
-	SimSeconds float64
-	Steps      int
-	Nontrivial bool
-	Sample     interface{}
+	Violations           []Violation
+	Faults               map[string]int
+	Probes               map[string]int
+	Evals                map[string]int
+	States               []string
+	LogHash              string
+	SimSeconds           float64
+	Steps                int
+	Nontrivial           bool
+	Sample               interface{}
+	Cases, DistinctCases int
 }
 
 // Engine is what a component simulator provides to the generic worker.
@@ -112,7 +113,7 @@ func WorkerMain(t *testing.T, e Engine) {
 		c := e.Generate(seed, prop)
 		o := e.Execute(t, prop, c)
 		res := RunResult{Seed: seed, Index: i, Steps: o.Steps, SimSeconds: o.SimSeconds, Faults: o.Faults, Probes: o.Probes, States: o.States,
-			TraceHash: HashStrings(string(c.Config), HashActions(c.Actions)), LogHash: o.LogHash, OracleEval: o.Evals, Nontrivial: o.Nontrivial}
+			TraceHash: HashStrings(string(c.Config), HashActions(c.Actions)), LogHash: o.LogHash, OracleEval: o.Evals, Nontrivial: o.Nontrivial, Cases: o.Cases, DistinctCases: o.DistinctCases}
 		if i-from < 2 && o.Sample != nil {
 			sm, _ := json.Marshal(o.Sample)
 			res.Sample = sm
